@@ -85,6 +85,10 @@ def handle (d : DSt) (n : Nat) (line : String) : IO DSt := do
           d := { d with sp := specNext d.cfg d.sp rs }
         else
           d := { d with dropped := d.dropped + 1 }
+          if !mayDrop d.st.lastExec es then
+            if !d.caseFailed then
+              IO.println s!"SPECFAIL line={n} case={d.caseNo} clause={Clause.droppedAlthoughNotOlder.name}"
+            d := { d with specfails := d.specfails + 1, caseFailed := true }
         -- histogram
         d := match io.ev with
           | .none => { d with evNone := d.evNone + 1 }
